@@ -44,7 +44,7 @@ func main() {
 			"Filter/While with every predicate mask by position for length <= %d (longer: every mask for 4 sequences per length and 10 fixed masks for every sequence); "+
 			"First/Last n = 0..len+1; Chunk size 1..len+1; Compact, CompactFunc/Runs with 5 equivalences; WithPeek with every Peek/Next pattern of length min(len+2,%d) then drained; "+
 			"Flatten/FlattenSlices/Join over every cut of every sequence of length <= %d into <= %d possibly-empty parts; Equal over all pairs of length <= %d and every one-place variation; "+
-			"Counter/Repeat n = -3..9. For every cut of every sequence of length <= 4 also nested Joins over ONE array of leaves (Join(Join(L[:m]...), trailer) then Join(L[m:]...) for every m; groups of two joined, then the groups joined), both flavours; Runs also with undrained inner runs (4 read policies). Long stretches: Flatten / FlattenSlices / Filter / Compact / CompactFunc over one item, N skipped items, one item (N = 20-30 million for iterators, the same for streams; stack depth must not grow with N). Then random inputs of length <= %d and random pipelines of 2-4 combinators against the composed reference.",
+			"Counter/Repeat n = -3..9. For every cut of every sequence of length <= 4 also nested Joins over ONE array of leaves (Join(Join(L[:m]...), trailer) then Join(L[m:]...) for every m; groups of two joined, then the groups joined), both flavours; Runs also with undrained inner runs (4 read policies). Source position: every one-source triple, WithPeek pattern, Runs walk and Flatten/Join cut again directly over the library's own source types, stopped after every j requests, rest of the source compared; named idioms (Join(First(it,k), it), head/rest, paging with First and Chunk, While/rest) for every k. Long stretches: Flatten / FlattenSlices / Filter / Compact / CompactFunc over one item, N skipped items, one item (N = 20-30 million for iterators, the same for streams; stack depth must not grow with N). Then random inputs of length <= %d and random pipelines of 2-4 combinators against the composed reference.",
 			maxLen, cfg.fullMaskLen, cfg.peekLen, cutLen, cutParts, pairLen, randLen))
 		r.SetExhaustive(true)
 		r.SetExtra("exhaustive_scope", "the small-scope groups (small/*) enumerate their stated bounds completely; the rand/* groups are seeded samples")
@@ -52,6 +52,7 @@ func main() {
 		r.Assume("predicates and conversion functions are pure functions of the item")
 		r.Assume("source pulls are compared after capping at len(source)+1: asking an already ended source again when the consumer asks again requests no item and is not counted against laziness")
 		r.Assume("Runs: in the main check the consumer drains every inner run before calling Next on the outer, as documented. A second check leaves inner runs undrained (0, 1, 2, all-but-one items read; a stream inner is not closed by the consumer) and advances the outer: the library skips the rest of the run itself - existing, intended behaviour of the code although the doc says the inner 'should' be drained - so run heads and run count must still be the reference's. Closing a stream inner early and then advancing is observed, not judged.")
+		r.Assume("source position: directly over the library's own sources (iterator.Slice / Chan / Counter / Repeat, stream.FromIterator(iterator.Slice), stream.Chan - no probe in between) the source must have advanced by exactly min(need(j), len) items after j requests: fewer is impossible for an implementation that takes its items from the source, more is forbidden by the laziness clause. For streams the position is read from the underlying iterator / channel. Package iterator has no sole-user rule: Join(First(it,k), it), head/rest splits and paging loops with First / Chunk / While are judged against the documented sequence (While takes the failing item with it)")
 		r.Assume("argument integrity: no operation of this property is documented to modify a slice it is handed; every slice argument (variadic source lists, item slices, slices of slices) is a sub-slice with spare capacity of a sentinel-guarded array that must be unchanged after every request. stream.FlattenSlices overwriting the items INSIDE a slice it has consumed is recorded, not judged")
 		r.Assume("non-termination is decided by a call budget, not by time: callbacks and probe sources may be invoked at most 200*(n+16) times per run of one flavour over n items (legitimate runs need a few times n)")
 		r.Assume("parameters inside the documented domain only: chunkSize >= 1, First/Last n >= 0, xslices.Repeat n >= 0")
@@ -62,6 +63,7 @@ func main() {
 
 		r.Cases("regress", 1, 1, func(c *vkit.Case) { a := newAcc(c); regress(a); a.flush() })
 		r.Cases("small/ctor", 1, 1, func(c *vkit.Case) { a := newAcc(c); smallCtor(a, -3, 9); a.flush() })
+		r.Cases("small/ctor-sources", 1, 1, func(c *vkit.Case) { a := newAcc(c); ctorSources(a, r.Scale(7, 8)); a.flush() })
 		groups := []struct {
 			name string
 			fn   func(a *acc, sp *seqSpace, idx int, cfg smallCfg)
@@ -76,6 +78,7 @@ func main() {
 			{"small/peek", smallPeek},
 			{"small/convert", smallConvert},
 			{"small/reducers", smallReducers},
+			{"small/idioms", smallIdioms},
 		}
 		// Designated sample cases: the sequence [1 0 1 1 2] (chunk: 2nd non-trivial triple = chunkSize 2;
 		// runs: 1st = "same digit"; filter: the 12th mask) and the cuts of [0 1 2 0].
@@ -145,6 +148,9 @@ func main() {
 		r.Floor("Runs checked with undrained inner runs", r.Table("Runs with undrained inner runs: items read of each run before the outer advances", "the first item"), int64(N))
 		r.Floor("nested Join scenarios over one shared array", r.Table("argument integrity", "iterator.Join nested: Join(Join(L[:m]...), trailer) then Join(L[m:]...)")+
 			r.Table("argument integrity", "stream.Join nested: Join(Join(L[:m]...), trailer) then Join(L[m:]...)"), int64(2*sp.offset[nestedJoinLen+1]))
+		r.Floor("source-position checks", r.Table("totals", "source-position checks (rest of the library's own source read after j requests)"), int64(100*N))
+		r.Floor("idiom Join(First(it,k), it) over the library's own sources", r.Table("idioms over the library's own sources", "Join(First(it,k), it)"), int64(2*N))
+		r.Floor("source-position over Counter / Repeat sources", r.Table("source-position: constructor-shaped sources used", "Counter / Repeat"), 500)
 		r.Floor("random pipelines checked", r.Table("triples by operation", "pipeline"), int64(nPipe))
 		r.Floor("Next calls after the end checked", r.Table("totals", "Next calls after the end checked"), int64(3*N))
 		r.Floor("regression scenarios D1 (Last, n == 0)", r.Table("regression scenarios", "D1 iterator.Last / stream.Last with n == 0"), 3)
